@@ -48,9 +48,14 @@ CHECKS = {
     technique="contract-based deductive verification of the discretisation function + bounded contract checking of run() against the delayed recurrence",
     engine="pyvc", rtc=True),
  "C11": dict(
-    level=("exploration", "Bounded: run() against the explicitly augmented linear-chain ODE (n = round((d/s)^2) stages of rate n/d) on families of "
-            "(delay, spread) mixtures, vectorize on/off.", "5 C11"),
-    note="Trusted: spec_fixed_step's explicit chain.", technique="bounded contract checking of run() against the explicit augmented ODE", engine="rtc", rtc=True),
+    level=("other", "Deductive (small core): the arithmetic that fixes the gamma kernel - number of stages and stage rate - in the per-edge loop of "
+            "NetworkGraph._add_edge_buffer (scalar edges) and in the cascade branch of _add_matrix_delay (Connectivity): for every delay, spread and "
+            "dde_approx, n >= 1, rate*d == n (mean delay d) and n == max(1, round((d/s)^2)[, dde_approx]), the same number in both forms. Bounded: "
+            "run() against the explicitly augmented linear-chain ODE on families of (delay, spread) mixtures, vectorize on/off, Connectivity; the grouping "
+            "of slots into chains, the generated chain equations and their compilation are bounded only.", "5 C11"),
+    note="Trusted: pyvc encoding (floats as reals, np.round / round as round-half-even on reals); spec_fixed_step's explicit chain.",
+    technique="contract-based deductive verification of the kernel order/rate regions (pyvc: VCs from the AST of the real statements, z3/cvc5; counter-models replayed on the extracted region) + bounded contract checking of run() against the explicit augmented ODE",
+    engine="pyvc", rtc=True),
  "C18": dict(
     level=("other", "Deductive: for any number of parameters the slot list of the real _auto_param_indices (blocked range = the class constant in the "
             "current source) is strictly increasing, 1..9 first, never PAR(11)..PAR(14). Bounded: the same natively for 0..N parameters and text-level "
